@@ -623,3 +623,13 @@ pub fn get_spy(kem: KemId, kdf: KdfId) -> &'static dyn DynSuite {
         .map(|b| b.as_ref())
         .expect("spy suite in table")
 }
+
+/// `PskBundle::new` on its own (C15)
+pub fn psk_bundle_new(psk: &[u8], psk_id: &[u8]) -> Result<(), HpkeError> {
+    PskBundle::new(psk, psk_id).map(|_| ())
+}
+
+/// A KEM-only view: any row with this KEM (KEM operations do not depend on the KDF/AEAD of the suite)
+pub fn get_kem(kem: KemId) -> &'static dyn DynSuite {
+    get(Suite { kem, kdf: KdfId::Sha256, aead: AeadId::ChaCha })
+}
